@@ -451,7 +451,7 @@ func tStrOp(op string, sort Sort, args ...*Term) *Term {
 		}
 		hs, ok1 := charSeq(hay)
 		ns, ok2 := charSeq(needle)
-		if ok1 && ok2 && len(hs) <= 64 {
+		if ok1 && ok2 && len(hs) <= 4096 {
 			matchAt := func(i int) *Term {
 				var cs []*Term
 				for j, c := range ns {
